@@ -1,6 +1,7 @@
 import ZCV.SExp
 import ZCV.Gen.CodeDatatypes
 import ZCV.Gen.CodeSubstitution
+import ZCV.Gen.CodeCmdline
 import ZCV.Model.Datatypes
 /-!
 Second line-protocol driver: runs the GENERATED code (`ZCV/Gen/Code*.lean`, the translation of the Python source by
@@ -14,6 +15,8 @@ generated `timedelta` takes as a parameter); no lemma.  Same S-expression conven
   (code "<datatype name>" "text")                    the stock conversion's translation     → (ok <value>) | (err <Class>)
   (code "substitute" "text")                         with the tables set before             → (ok "text") | (err (syntax)) | (err (missing "source" "name"|none))
   (code "timedelta" "text")                         constructor accepting everything              → (ok (w d h m s)), each none | "float literal"  | (err <Class>)
+  (code "addOption" "spec") / (code "addOption-pos" "spec")   without / with pos = ("u", 3, 4)    → (ok (tup (list (s "a") …) (s "val") (tup (s url) (i l) (i c)))) | (err (cfgsyntax url line col specifier))
+  (code "bag-basic-key" "text")  (code "bag-normalize-case" "text")   OptionBag.basic_key(text, ("u", 3, 4)), _normalize_case
   (code "isname" "text")                                                                    → (ok (b t|f))
   (code "_split" "text")                                                                    → (ok (tup p name namecase suffix vtype)) | (err (syntax))
 values: (s "…") (i n) (b t|f) none (list …) (tup …), as `Codec.encVal` writes them.
@@ -32,6 +35,7 @@ def excName : PyExc → SExp
   | .IndexError => .atom "IndexError"
   | .SubstitutionSyntaxError => .list [.atom "syntax"]
   | .SubstitutionReplacementError s n => .list [.atom "missing", .str s, ofOpt .str n]
+  | .ConfigurationSyntaxError u l c sp => .list [.atom "cfgsyntax", ofOpt .str u, ofOpt ofInt l, ofOpt ofInt c, ofOpt .str sp]
   | .Other n => .str n
 
 def res {α} (f : α → SExp) : Except PyExc α → SExp
@@ -48,6 +52,9 @@ def famStr : SockFamily → Str
   | .AF_UNIX => "AF_UNIX".toList | .AF_INET => "AF_INET".toList | .AF_INET6 => "AF_INET6".toList
 def vSock (a : SockFamily × Sum Str (Str × Option Int)) : SExp :=
   .list [.atom "tup", vStr (famStr a.1), match a.2 with | .inl p => vStr p | .inr hp => vHostPort hp]
+
+def vItem (t : List Str × Str × (Str × Int × Int)) : SExp :=
+  .list [.atom "tup", .list (.atom "list" :: t.1.map vStr), vStr t.2.1, .list [.atom "tup", vStr t.2.2.1, vInt t.2.2.2.1, vInt t.2.2.2.2]]
 
 structure DState where
   defs : List SExp := []
@@ -82,6 +89,11 @@ def handle (st : DState) : SExp → DState × SExp
         let num : Num → SExp := fun n => match n with | .int 0 => .atom "none" | .int i => vInt i | .float l => .str l
         res (fun t => .list [num t.weeks, num t.days, num t.hours, num t.minutes, num t.seconds])
           (Gen.Code.timedelta DT.floatOk (fun w d h m s => .ok ⟨w, d, h, m, s⟩) s)
+      -- cmdline.py: addOption without / with the position ("u", 3, 4); OptionBag.basic_key at that position; _normalize_case
+      | "addOption" => res vItem (Gen.Code.addOption s none)
+      | "addOption-pos" => res vItem (Gen.Code.addOption s (some ("u".toList, 3, 4)))
+      | "bag-basic-key" => res vStr (Gen.Code.OptionBag_basic_key Gen.Code.basic_key s ("u".toList, 3, 4))
+      | "bag-normalize-case" => res vStr (Gen.Code.OptionBag_normalize_case s)
       | "substitute" => res .str (Gen.Code.substitute (assocFn st.env) s (assocFn st.defs))
       | "isname" => res vBool (Gen.Code.isname s)
       | "_split" => res (fun t => .list [.atom "tup", vStr t.1, vOptStr t.2.1, vOptStr t.2.2.1, vOptStr t.2.2.2.1, vOptStr t.2.2.2.2])
